@@ -96,9 +96,10 @@ def gen(rng):
             hk = rng.below(3)
             holder = "now" if hk == 0 else ("keep" if hk == 1 else w)
             # the carrier may be CLOSED before it is let go (closing does not drain: the messages stay undelivered)
-            ops.append(("strand", holder, msgs, rng.chance(1, 4)))
+            closed = rng.chance(1, 4)
+            ops.append(("strand", holder, msgs, closed))
             if holder != "now":
-                c = {"holder": holder, "msgs": [list(m) for m in msgs]}
+                c = {"holder": holder, "msgs": [list(m) for m in msgs], "closed": closed}
                 carriers.append(c)
                 if holder == "keep":
                     kept.append(c)
@@ -107,7 +108,8 @@ def gen(rng):
             carriers = [c for c in carriers if c["holder"] != "keep"]
             kept = []
         elif k < 89:
-            live = [j for j, c in enumerate(kept) if c["msgs"]]
+            # (ev/take on a closed channel gives nil without popping: only open carriers deliver late)
+            live = [j for j, c in enumerate(kept) if c["msgs"] and not c["closed"]]
             if live:
                 j = rng.choice(live)
                 kept[j]["msgs"].pop(0)
